@@ -23,11 +23,16 @@ RULE = ("case = well-formed workflow (2-5 targets, everything stale) + backend s
         "readable); no target whose accepted job is still pending gets a second job; the remaining stale targets are "
         "submitted with prerequisites naming the accepted jobs' ids; after the interrupted run a spec-hash record exists "
         "only for accepted targets. Non-trivial: the interruption falls after >=1 and before the last of >=3 submissions, "
-        "or inside a state-file write. Distinct = SHA-1 of canonical case JSON.")
+        "or inside a state-file write. Local backend (`local_interrupt` tier): a real `gwf workers` pool behind a TCP "
+        "proxy of the harness that records every enqueue (name, deps, answered id); at the k-th enqueue of the "
+        "interrupted run the connection is dropped before the request reaches the pool, dropped after the pool answered "
+        "(that one task is in doubt), or the gwf sub-process is SIGKILLed; every task sleeps 60 s, so all accepted tasks "
+        "are in flight at the follow-up; same oracle on the proxy's record. Distinct = SHA-1 of canonical case JSON.")
 ASSUMPTIONS = [
     "crash model: process death (SIGKILL / _exit) at submission boundaries and at every write() of a state file; power loss and un-synced page cache are out of scope",
     "a kill 'between two submissions' is delivered when gwf is about to send the next submission, i.e. after it has received the previous reply",
     "simulated schedulers reached through thin client executables on PATH (unix socket to the harness)",
+    "local pool: faults are injected on the connection between gwf and the pool (the pool itself stays up); a pool that dies is covered by the restart cases of C08/C17",
 ]
 BUDGET = {
     "quick": {"examples": 36, "wall_s": 110, "shards": 4},
@@ -188,7 +193,27 @@ def enumerate_cases(tier):
                    "second_round": False, "start_some": True}
 
 
+def _local_extra():
+    from vlib import localfault
+
+    return [{"name": "local_interrupt", "strategy": lambda tier: localfault.case(),
+             "examples": {"quick": 6, "thorough": 96}, "wall_s": 300}]
+
+
+EXTRA_STRATEGIES = _local_extra()
+
+
+def run_local(case):
+    """Local worker pool: the connection breaks at the k-th enqueue, or gwf is killed there."""
+    from vlib import localfault
+
+    viols, labels, nt = localfault.run(case)
+    return CaseResult([Violation(sig, msg) for sig, msg in viols], nt, sorted(labels))
+
+
 def run_case(case):
+    if case.get("kind") == "local-interrupt":
+        return run_local(case)
     desc, b = case["desc"], case["backend"]
     fault = case["fault"]
     cfg = {"use_spec_hashes": True} if case["hashing"] else {}
